@@ -91,7 +91,7 @@ pub fn build_config(dir: &Path, cfg: &Value) -> Arc<SystemConfig> {
         if v.as_bool().unwrap_or(false) {
             sc.message_deduplication.enabled = true;
             sc.message_deduplication.max_entries = cfg.get("dedup_max").and_then(|v| v.as_u64()).unwrap_or(100_000);
-            sc.message_deduplication.expiry = IggyDuration::from_str("1h").unwrap();
+            sc.message_deduplication.expiry = IggyDuration::from_str(cfg.get("dedup_expiry").and_then(|v| v.as_str()).unwrap_or("1h")).unwrap();
         }
     }
     if let Some(v) = cfg.get("delete_oldest") {
@@ -139,7 +139,15 @@ pub struct Srv {
 async fn start_system(config: Arc<SystemConfig>) -> Result<(SharedSystem, std::net::SocketAddr, std::net::SocketAddr), IggyError> {
     // a real restart is a new process: process-global counters start over
     server::streaming::systems::streams::verif_reset_stream_id_counter();
-    let mut system = System::new(config, DataMaintenanceConfig::default(), PersonalAccessTokenConfig::default());
+    // a configuration the server refuses by panicking at start-up is a refused start, not a harness failure
+    let prev_hook = std::panic::take_hook();
+    std::panic::set_hook(Box::new(|_| {}));
+    let built = std::panic::catch_unwind(std::panic::AssertUnwindSafe(|| System::new(config, DataMaintenanceConfig::default(), PersonalAccessTokenConfig::default())));
+    std::panic::set_hook(prev_hook);
+    let mut system = match built {
+        Ok(sy) => sy,
+        Err(_) => return Err(IggyError::InvalidConfiguration),
+    };
     system.init().await?;
     let shared = SharedSystem::new(system);
     let mut tc = TcpConfig::default();
@@ -265,7 +273,11 @@ impl Srv {
     }
 
     pub async fn dump_partition(&self, stream: &Value, topic: &Value, pid: u32) -> Value {
-        let system = self.shared.read().await;
+        Self::dump_partition_of(&self.shared, stream, topic, pid).await
+    }
+
+    pub async fn dump_partition_of(shared: &SharedSystem, stream: &Value, topic: &Value, pid: u32) -> Value {
+        let system = shared.read().await;
         let Ok(st) = system.get_stream(&ident(stream)) else { return json!({"r": "err", "name": "no_stream"}) };
         let Ok(tp) = st.get_topic(&ident(topic)) else { return json!({"r": "err", "name": "no_topic"}) };
         let Ok(p) = tp.get_partition(pid) else { return json!({"r": "err", "name": "no_partition"}) };
@@ -540,6 +552,7 @@ impl Srv {
             let _ = c.disconnect().await;
             return r;
         }
+        let shared_wb = self.shared.clone();
         let c = self.client(cname).await;
         let stream = ident(&op["stream"]);
         let topic = ident(&op["topic"]);
@@ -772,6 +785,57 @@ impl Srv {
                 };
                 json!({"r": "ok", "streams": streams_out, "users": users})
             }
+            "audit" => {
+                // every reported figure through the public API, next to what is actually stored (full polls, segment files)
+                let stats = match c.get_stats().await {
+                    Ok(st) => json!({"streams": st.streams_count, "topics": st.topics_count, "partitions": st.partitions_count, "segments": st.segments_count,
+                        "messages": st.messages_count, "size": st.messages_size_bytes.as_bytes_u64(), "groups": st.consumer_groups_count}),
+                    Err(e) => return err_json(&e),
+                };
+                let list = match c.get_streams().await { Ok(l) => l, Err(e) => return err_json(&e) };
+                let mut streams_out = vec![];
+                let mut listed: Vec<Value> = list.iter().map(|d| json!({"id": d.id, "size": d.size.as_bytes_u64(), "msgs": d.messages_count, "topics": d.topics_count})).collect();
+                listed.sort_by_key(|v| v["id"].as_u64());
+                let mut sids: Vec<u32> = list.iter().map(|x| x.id).collect();
+                sids.sort();
+                for sid in sids {
+                    let sident = Identifier::numeric(sid).unwrap();
+                    let Ok(Some(sd)) = c.get_stream(&sident).await else { return json!({"r": "err", "name": format!("get_stream {sid} failed")}) };
+                    let mut in_stream: Vec<Value> = sd.topics.iter().map(|t| json!({"id": t.id, "size": t.size.as_bytes_u64(), "msgs": t.messages_count, "parts": t.partitions_count})).collect();
+                    in_stream.sort_by_key(|v| v["id"].as_u64());
+                    let mut tids: Vec<u32> = sd.topics.iter().map(|t| t.id).collect();
+                    tids.sort();
+                    let mut topics_out = vec![];
+                    for tid in tids {
+                        let tident = Identifier::numeric(tid).unwrap();
+                        let Ok(Some(td)) = c.get_topic(&sident, &tident).await else { return json!({"r": "err", "name": format!("get_topic {sid}/{tid} failed")}) };
+                        let groups = match c.get_consumer_groups(&sident, &tident).await { Ok(g) => g.len(), Err(e) => return err_json(&e) };
+                        let mut parts_out = vec![];
+                        for pd in td.partitions.iter() {
+                            let polled = match c.poll_messages(&sident, &tident, Some(pd.id), &Consumer::new(Identifier::numeric(4_000_000).unwrap()), &PollingStrategy::offset(0), 1_000_000, false).await {
+                                Ok(pm) => json!(pm.messages.len()),
+                                Err(e) => err_json(&e),
+                            };
+                            let wb = Self::dump_partition_of(&shared_wb, &json!(sid), &json!(tid), pd.id).await;
+                            let (mut wb_segs, mut log_bytes, mut unsaved) = (0u64, 0u64, 0u64);
+                            if let Some(segs) = wb["segs"].as_array() {
+                                wb_segs = segs.len() as u64;
+                                for sg in segs {
+                                    let l = sg["log_len"].as_u64().unwrap_or(0);
+                                    if l != u64::MAX { log_bytes += l; }
+                                    if let Some(a) = sg["acc"].as_array() { unsaved += a[2].as_u64().unwrap_or(0); }
+                                }
+                            }
+                            parts_out.push(json!({"id": pd.id, "segs": pd.segments_count, "cur": pd.current_offset, "size": pd.size.as_bytes_u64(), "msgs": pd.messages_count,
+                                "polled": polled, "wb_segs": wb_segs, "log_bytes": log_bytes, "unsaved": unsaved}));
+                        }
+                        parts_out.sort_by_key(|v| v["id"].as_u64());
+                        topics_out.push(json!({"id": td.id, "size": td.size.as_bytes_u64(), "msgs": td.messages_count, "parts_count": td.partitions_count, "groups": groups, "parts": parts_out}));
+                    }
+                    streams_out.push(json!({"id": sd.id, "size": sd.size.as_bytes_u64(), "msgs": sd.messages_count, "topics_count": sd.topics_count, "in_stream": in_stream, "topics": topics_out}));
+                }
+                json!({"r": "ok", "stats": stats, "listed": listed, "streams": streams_out})
+            }
             "get_stats" => match c.get_stats().await {
                 Ok(st) => json!({"r": "ok", "streams": st.streams_count, "topics": st.topics_count, "partitions": st.partitions_count, "segments": st.segments_count,
                     "messages": st.messages_count, "size": st.messages_size_bytes.as_bytes_u64(), "groups": st.consumer_groups_count, "clients": st.clients_count}),
@@ -902,7 +966,7 @@ pub async fn run_trace(t: &Value, dir: &Path) -> Value {
     let mut outs = vec![];
     for op in t["ops"].as_array().unwrap() {
         let o = srv.exec(op).await;
-        let fatal = s(op, "op") == "restart" && o["r"] != "ok";
+        let fatal = s(op, "op") == "restart" && o["r"] != "ok" && !op.get("go_on").and_then(|v| v.as_bool()).unwrap_or(false);
         outs.push(o);
         if fatal {
             break;
